@@ -160,6 +160,18 @@ def handle (line : String) : String :=
       let r := attrRead dblOps cfg lookup k (opt == "1") (IStream.ofBytes (t ++ c))
       showRead k r ++ " | " ++ showVerdict k (Grammar.classify dblOps lookup k t)
     | _, _, _ => "bad-op"
+  | ["sq", kind, opt, first, rest] =>
+    match parseKind kind, unhex first, unhex rest with
+    | some k, some f, some c =>
+      match attrRead dblOps cfg lookup .string false (IStream.ofBytes (f ++ [44] ++ c)) with
+      | .ok r1 =>
+        let s2 := r1.s.get.2
+        match attrRead dblOps cfg lookup k (opt == "1") s2 with
+        | .ok r =>
+          s!"R first={r1.sev.name} sev={r.sev.name} val={showVal k r.val} pos={r.s.pos} eof={b2s r.s.eof} fail={b2s r.s.failed}"
+        | .overflow => "R overflow"
+      | .overflow => "R overflow"
+    | _, _, _ => "bad-op"
   | ["ag", kind, h] => handleAggr kind h
   | ["wr", kind, v] =>
     match parseKind kind with
